@@ -690,6 +690,9 @@ func runDisputeHistory(t *testing.T, seed int64) (string, map[string]int, string
 		first = pick(r, bquo(full, bi(int64(2+r.Intn(3)))), bquo(bmul(full, bi(96)), bi(100)), bsub(full, bi(1)), bquo(bmul(full, bi(95)), bi(100)))
 	}
 	rounds := pick(r, 1, 1, 2, 3)
+	if v := os.Getenv("HIST_ROUNDS"); v != "" {
+		fmt.Sscan(v, &rounds)
+	}
 	choice := pick(r, disputetypes.VoteEnum_VOTE_AGAINST, disputetypes.VoteEnum_VOTE_AGAINST, disputetypes.VoteEnum_VOTE_SUPPORT, disputetypes.VoteEnum_VOTE_INVALID)
 	if refundAfterJail {
 		rounds = 1
@@ -854,9 +857,125 @@ func TestHistDisputesDebug(t *testing.T) {
 	fmt.Println(stats, "HALTED:", halted)
 }
 
+// witness of the open finding C13b for C02 (a chain halt): a reporter whose stake comes from three selectors pays a
+// dispute fee from stake in one-loya payments: each is credited but each selector's share of it truncates to nothing, so
+// nothing reaches the escrow; once more than half the burn amount is missing the begin blocker that executes the dispute
+// (AGAINST: burn + stake + fees - burn amount) fails with insufficient funds
+func runC13bHalt(t *testing.T) (string, map[string]int, string) {
+	r := rand.New(rand.NewSource(5))
+	nVals := 3
+	w := newWorld(t, r, nVals, 4)
+	lastWorld = w
+	w.focus = "dispute"
+	stats := map[string]int{}
+	var steps []string
+	rec := func(res opResult) {
+		steps = append(steps, coqStep(res, w.snap(), nil))
+		stats[fmt.Sprintf("%s/%d", res.name, res.result)]++
+	}
+	block := func(gap time.Duration, f func()) {
+		rec(w.beginBlock(gap))
+		if w.halted != "" {
+			return
+		}
+		if f != nil {
+			f()
+		}
+		rec(w.endBlock())
+	}
+	small := nVals + 2
+	_, _ = w.stakingMS.Delegate(w.ctx, &stakingtypes.MsgDelegate{DelegatorAddress: w.accts[small].String(), ValidatorAddress: w.valOps[2].String(), Amount: w.coin(bi(2 * loyaPerTRB))})
+	if _, err := w.reporterMS.CreateReporter(w.ctx, &reportertypes.MsgCreateReporter{ReporterAddress: w.accts[small].String(), CommissionRate: math.LegacyZeroDec(), MinTokensRequired: math.NewInt(loyaPerTRB)}); err != nil {
+		t.Fatal(err)
+	}
+	w.reporters[small] = true
+	for _, a := range []int{nVals, nVals + 1} {
+		_, _ = w.stakingMS.Delegate(w.ctx, &stakingtypes.MsgDelegate{DelegatorAddress: w.accts[a].String(), ValidatorAddress: w.valOps[1].String(), Amount: w.coin(bi(1000 * loyaPerTRB))})
+		if _, err := w.reporterMS.SelectReporter(w.ctx, &reportertypes.MsgSelectReporter{SelectorAddress: w.accts[a].String(), ReporterAddress: w.accts[1].String()}); err != nil {
+			_, _ = w.reporterMS.SwitchReporter(w.ctx, &reportertypes.MsgSwitchReporter{SelectorAddress: w.accts[a].String(), ReporterAddress: w.accts[1].String()})
+		}
+	}
+	init := w.snap()
+	for b := 0; b < 3 && w.halted == ""; b++ {
+		block(time.Second, func() {
+			qd := w.currentCycleQuery()
+			for _, rep := range []int{small, 1} {
+				rep := rep
+				rec(w.deliver("SubmitValue", rep, nil, func(ctx sdk.Context) error {
+					_, err := w.oracleMS.SubmitValue(ctx, &oracletypes.MsgSubmitValue{Creator: w.accts[rep].String(), QueryData: qd, Value: "00000000000000000000000000000000000000000000000000000000000004d2"})
+					if err == nil {
+						w.noteReport(ctx, utils.QueryIDFromData(qd), w.accts[rep])
+					}
+					return err
+				}))
+			}
+		})
+	}
+	var rep oracletypes.MicroReport
+	found := false
+	for _, x := range w.recent {
+		if x.Reporter == w.accts[small].String() {
+			rep, found = x, true
+		}
+	}
+	if !found {
+		t.Fatal("C13b witness: the small reporter has no report")
+	}
+	full := bquo(bmul(new(big.Int).SetUint64(rep.Power), bi(loyaPerTRB)), bi(20)) // minor: 5 %
+	payer := nVals + 3
+	var id uint64
+	block(time.Second, func() {
+		rec(w.deliver("ProposeDispute", payer, []*big.Int{bi(0)}, func(ctx sdk.Context) error {
+			_, err := w.disputeMS.ProposeDispute(ctx, &disputetypes.MsgProposeDispute{Creator: w.accts[payer].String(), Report: &rep, DisputeCategory: disputetypes.Minor, Fee: w.coin(bquo(full, bi(10))), PayFromBond: false})
+			return err
+		}))
+		ds, _ := w.s.Disputekeeper.GetOpenDisputes(w.ctx)
+		if len(ds) == 0 {
+			t.Fatal("C13b witness: the dispute was not opened")
+		}
+		id = ds[len(ds)-1]
+		w.disputes = ds
+		d, _ := w.s.Disputekeeper.Disputes.Get(w.ctx, id)
+		n := int(d.BurnAmount.Int64()/2) + 5
+		for i := 0; i < n; i++ {
+			rec(w.deliver("AddFeeToDispute", 1, []*big.Int{bi(1)}, func(ctx sdk.Context) error {
+				w.touched = id
+				_, err := w.disputeMS.AddFeeToDispute(ctx, &disputetypes.MsgAddFeeToDispute{Creator: w.accts[1].String(), DisputeId: id, Amount: w.coin(bi(1)), PayFromBond: true})
+				return err
+			}))
+		}
+		d, _ = w.s.Disputekeeper.Disputes.Get(w.ctx, id)
+		rest := d.SlashAmount.Sub(d.FeeTotal).BigInt()
+		rec(w.deliver("AddFeeToDispute", payer, []*big.Int{bi(0)}, func(ctx sdk.Context) error {
+			w.touched = id
+			_, err := w.disputeMS.AddFeeToDispute(ctx, &disputetypes.MsgAddFeeToDispute{Creator: w.accts[payer].String(), DisputeId: id, Amount: w.coin(rest), PayFromBond: false})
+			return err
+		}))
+	})
+	block(time.Hour, func() {
+		rec(w.deliver("Vote", w.team, nil, func(ctx sdk.Context) error {
+			_, err := w.disputeMS.Vote(ctx, &disputetypes.MsgVote{Voter: w.accts[w.team].String(), Id: id, Vote: disputetypes.VoteEnum_VOTE_AGAINST})
+			return err
+		}))
+	})
+	if w.halted == "" {
+		block(72*time.Hour+time.Second, nil)
+	}
+	return fmt.Sprintf("Hist %s %s", init.coq(), clist(steps)), stats, w.halted
+}
+
 func TestHistDisputes(t *testing.T) {
 	out := newOut(t, "hist_disputes")
 	defer out.Close()
+	{
+		term, stats, halted := runC13bHalt(t)
+		kind := "completed"
+		if halted != "" {
+			kind = "halted"
+		}
+		out.Emit(Case{Coq: term, Kind: kind, Nontrivial: true, Key: "corpus:C13b-halt", Tags: []string{"corpus:C13b"},
+			Human: map[string]interface{}{"history": "corpus: 2505 one-loya fee payments from the stake of a reporter with three selectors, dispute decided AGAINST", "ops": stats, "halted": halted}})
+	}
 	n := count(40, 1000)
 	base := seed()*9_000_011 + 29
 	for i := 0; i < n; i++ {
